@@ -262,4 +262,23 @@ theorem decChar_some {bs rest : Bytes} {v : Value} (e : decChar bs = some (v, re
     · cases e
   · cases e
 
+/-! ### value equality test -/
+
+mutual
+theorem beq_iff : ∀ (a b : Value), a.beq b = true ↔ a = b
+  | .bool a, b => by cases b <;> simp [Value.beq]
+  | .num t a, b => by cases b <;> simp [Value.beq]
+  | .char a, b => by cases b <;> simp [Value.beq]
+  | .str a, b => by cases b <;> simp [Value.beq]
+  | .bytes a, b => by cases b <;> simp [Value.beq]
+  | .none, b => by cases b <;> simp [Value.beq]
+  | .some a, b => by cases b <;> simp [Value.beq, beq_iff a]
+  | .seq as, b => by cases b <;> simp [Value.beq, beqAll_iff as]
+  | .tuple as, b => by cases b <;> simp [Value.beq, beqAll_iff as]
+  | .variant i a, b => by cases b <;> simp [Value.beq, beq_iff a]
+theorem beqAll_iff : ∀ (as bs : List Value), Value.beqAll as bs = true ↔ as = bs
+  | [], bs => by cases bs <;> simp [Value.beqAll]
+  | a :: as, bs => by cases bs <;> simp [Value.beqAll, beq_iff a, beqAll_iff as]
+end
+
 end Lemmas.Bincode
